@@ -521,8 +521,8 @@ def rule_K3(prog, fixture=False):
         ok = None
         stale = None
         for n in f.walk():
-            if n.k != "IfStmt":
-                continue
+            if n.k not in ("IfStmt", "WhileStmt"):
+                continue          # if (size > max) evict;   while (size > max) evict;
             c = n.role("cond")
             flag = None
             if c is not None:
@@ -547,7 +547,7 @@ def rule_K3(prog, fixture=False):
             form = (is_size(lhs) and is_max(rhs) and op in (">", ">=")) or (is_max(lhs) and is_size(rhs) and op in ("<", "<="))
             if not form:
                 continue
-            then = n.role("then")
+            then = n.role("then") if n.k == "IfStmt" else n.role("body")
             eff = _container_effects(f, list_f[0], map_f[0]) if list_f and map_f else []
             inside = [(x, cont, d) for (x, cont, d) in eff if then is not None and any(a.id == then.id for a in x.ancestors())]
             evicts = any(d < 0 and cont == "list" for (_, cont, d) in inside) and any(d < 0 and cont == "map" for (_, cont, d) in inside)
